@@ -214,6 +214,9 @@ def generic_check(prop, tier, seed, plan=None, binaries=None, extra_args=None, s
     def runjob(j):
         env = san_env(j["logbase"], strict, extra_env)
         env["VF_TMP"] = rundir
+        ebs = plan.get("env_by_shard")
+        if ebs:
+            env.update(ebs[j["sh"] % len(ebs)])
         if plan.get("san_to_stderr"):
             env["ASAN_OPTIONS"] = re.sub(r":log_path=[^:]*", "", env["ASAN_OPTIONS"])
             env["UBSAN_OPTIONS"] = re.sub(r":log_path=[^:]*", "", env["UBSAN_OPTIONS"])
@@ -264,19 +267,21 @@ def generic_check(prop, tier, seed, plan=None, binaries=None, extra_args=None, s
     return merged
 
 
-def confirm(prop, fail, binaries, strict=False, extra_env=None):
-    """Replay a failure 3x in fresh processes; returns path of the replay file if it reproduces."""
+def confirm(prop, fail, binaries, strict=False, extra_env=None, runs=3, need=2):
+    """Replay a failure in fresh processes; returns path of the replay file if it reproduces."""
     if not fail["case"]:
         return None, "no journal entry"
     p = save_found(prop, fail["case"], fail["msg"], fail["cfg"])
     hits = 0
     last = ""
-    for _ in range(3):
+    for _ in range(runs):
         st, out = run_replay(binaries[fail["cfg"]], p, strict, extra_env=extra_env)
         last = out
         if st in ("fail", "crash", "timeout"):
             hits += 1
-    if hits >= 2:
+        if hits >= need:
+            break
+    if hits >= need:
         return p, last
     os.remove(p)
     return None, last
@@ -291,7 +296,12 @@ def regression_tier(prop, binaries, default_cfg, strict=False, extra_env=None):
     for p in sorted(glob.glob(os.path.join(KNOWN, prop + "-*.case"))):
         cfg = replay_cfg_of(p, default_cfg)
         if cfg not in binaries:
-            binaries.update(vbuild.build([cfg]))
+            if cfg.startswith("r-"):
+                import vspecial
+                hdrs, _e = vspecial.ensure_cfg(cfg)
+                binaries.update(vbuild.build([cfg], hdrs))
+            else:
+                binaries.update(vbuild.build([cfg]))
         st, out = run_replay(binaries[cfg], p, strict, extra_env=extra_env)
         res["replayed"] += 1
         if p in finding_files:
@@ -306,7 +316,7 @@ def regression_tier(prop, binaries, default_cfg, strict=False, extra_env=None):
 
 
 def finish(prop, tier, seed, level, merged, reg, rule, t0, extra_cov=None, strict=False, extra_env=None,
-           assumptions=None):
+           assumptions=None, confirm_runs=3, confirm_need=2):
     violations = []
     for p, out in reg["violations"]:
         violations.append(p)
@@ -317,7 +327,9 @@ def finish(prop, tier, seed, level, merged, reg, rule, t0, extra_cov=None, stric
         if f["case"] in seen:
             continue
         seen.add(f["case"])
-        p, out = confirm(prop, f, merged["binaries"], strict, extra_env)
+        if f.get("kind") == "oracle" and f["cfg"] not in merged["binaries"]:
+            continue
+        p, out = confirm(prop, f, merged["binaries"], strict, extra_env, confirm_runs, confirm_need)
         if p:
             violations.append(p)
             log("confirmed failure (%s, cfg %s): %s\n  case: %s" % (f["kind"], f["cfg"], f["msg"][:500], f["case"]))
@@ -355,8 +367,14 @@ def main():
     if len(sys.argv) >= 3 and sys.argv[1] == "--replay":
         path = os.path.abspath(sys.argv[2])
         cfg = replay_cfg_of(path)
-        b = vbuild.build([cfg])
-        st, out = run_replay(b[cfg], path, strict="strict" in cfg)
+        extra = None
+        if cfg.startswith("r-"):
+            import vspecial
+            hdrs, extra = vspecial.ensure_cfg(cfg)
+            b = vbuild.build([cfg], hdrs)
+        else:
+            b = vbuild.build([cfg])
+        st, out = run_replay(b[cfg], path, strict="strict" in cfg, extra_env=extra)
         print(out)
         print("replay status:", st)
         sys.exit(0 if st == "pass" else 1)
